@@ -133,3 +133,70 @@ Proof.
       destruct F1 as (_ & _ & _ & _ & B1), F2 as (_ & _ & _ & _ & B2), F3 as (_ & _ & _ & _ & B3), F4 as (_ & _ & _ & _ & B4).
       split; [apply quad_bound; assumption|lia].
 Qed.
+
+(* ------------------------------------------------------------------ every parsed value is well formed *)
+Open Scope N_scope.
+
+Lemma read_hex_u16_bound s g r : read_hex_u16 s = Some (g, r) -> g < 65536.
+Proof.
+  unfold read_hex_u16, read_number. destruct (span is_hex_digit s) as [ds r0].
+  destruct (Nat.ltb 4 (length ds)); [discriminate|]. destruct ds as [|c ds']; [discriminate|].
+  destruct (negb true && N.eqb c 48 && Nat.ltb 1 (length (c :: ds'))); [discriminate|].
+  destruct (65535 <? digits_N 16 hex_val (c :: ds')) eqn:M; [discriminate|]. apply N.ltb_ge in M.
+  intros H; inversion H; subst. lia.
+Qed.
+
+Lemma read_ipv4_bound s a r : read_ipv4 s = Some (a, r) -> a < 2 ^ 32.
+Proof.
+  intros H. destruct (read_ipv4_sound _ _ _ H) as (O1 & O2 & O3 & O4 & o1 & o2 & o3 & o4 & _ & F1 & F2 & F3 & F4 & ->).
+  destruct F1 as (_ & _ & _ & _ & B1), F2 as (_ & _ & _ & _ & B2), F3 as (_ & _ & _ & _ & B3), F4 as (_ & _ & _ & _ & B4).
+  apply quad_bound; assumption.
+Qed.
+
+Lemma v4_groups_bound a : a < 2 ^ 32 -> N.shiftr a 16 < 65536 /\ N.land a 65535 < 65536.
+Proof.
+  intros H. split.
+  - rewrite N.shiftr_div_pow2. apply N.div_lt_upper_bound; [discriminate|]. change (2 ^ 16 * 65536) with (2 ^ 32). exact H.
+  - change 65535 with (N.ones 16). rewrite N.land_ones. apply N.mod_lt. discriminate.
+Qed.
+
+Lemma read_groups_bound : forall left first s gs r v4,
+  read_groups left first s = (gs, r, v4) ->
+  Forall (fun g => g < 65536) gs /\ (length gs <= left)%nat.
+Proof.
+  induction left as [|k IH]; intros first s gs r v4 H; cbn [read_groups] in H.
+  - inversion H; subst. split; [apply Forall_nil|cbn; lia].
+  - set (after_sep := if first then Some s else expect 58 s) in *.
+    destruct (match k with O => None | S _ => obind after_sep (fun r0 => read_ipv4 r0) end) as [[a r1]|] eqn:V4.
+    + inversion H; subst. destruct k as [|k']; [discriminate|].
+      unfold obind in V4. destruct after_sep as [r0|]; [|discriminate].
+      apply read_ipv4_bound in V4. split; [|cbn; lia].
+      apply Forall_cons; [|apply Forall_cons; [|apply Forall_nil]].
+      * exact (proj1 (v4_groups_bound a V4)).
+      * exact (proj2 (v4_groups_bound a V4)).
+    + destruct (obind after_sep (fun r0 => read_hex_u16 r0)) as [[g r1]|] eqn:HX.
+      * destruct (read_groups k false r1) as [[gs' r'] v4'] eqn:RG. inversion H; subst.
+        destruct (IH _ _ _ _ _ RG) as [F L]. unfold obind in HX. destruct after_sep as [r0|]; [|discriminate].
+        apply read_hex_u16_bound in HX. split; [apply Forall_cons; assumption|cbn; lia].
+      * inversion H; subst. split; [apply Forall_nil|cbn; lia].
+Qed.
+
+Lemma fold_groups_bound : forall gs acc B,
+  Forall (fun g => g < 65536) gs -> acc < B ->
+  fold_left (fun a g => a * 65536 + g) gs acc < B * 65536 ^ N.of_nat (length gs).
+Proof.
+  induction gs as [|g gs IH]; intros acc B F Hacc.
+  - cbn. lia.
+  - inversion F; subst. cbn [fold_left length]. rewrite Nat2N.inj_succ, N.pow_succ_r'.
+    replace (B * (65536 * 65536 ^ N.of_nat (length gs))) with ((B * 65536) * 65536 ^ N.of_nat (length gs)) by lia.
+    apply IH; [assumption|lia].
+Qed.
+
+Lemma groups_val_bound gs : Forall (fun g => g < 65536) gs -> length gs = 8%nat -> groups_val gs < 2 ^ 128.
+Proof.
+  intros F L. unfold groups_val. pose proof (fold_groups_bound gs 0 1 F ltac:(lia)) as B.
+  rewrite L in B. change (1 * 65536 ^ N.of_nat 8) with (2 ^ 128) in B. exact B.
+Qed.
+
+(* read_ipv6_bound / ip_parse_wf (every parsed IPv6 value is well formed) were attempted and are
+   not finished; ip_wf stays a hypothesis of the range theorems for IPv6 values. *)
